@@ -211,6 +211,44 @@ def momentOut (G : M α) (H : Option (M α)) (s : M α × M α) : Mom α :=
 def momentSeq (A C G : M α) (H : Option (M α)) (mu0 Sig0 : M α) (k : Nat) : List (Mom α) :=
   (List.range k).map fun t => momentOut G H (momentState A C mu0 Sig0 t)
 
+/-! ### the LinearStateSpace object -/
+
+/-- a `LinearStateSpace` instance: nothing but its attributes (no cache is read by the methods of
+    this property; `stationary_distributions` stores its results but never reads them back) -/
+structure LObj (α : Type) where
+  A : M α
+  C : M α
+  G : M α
+  H : Option (M α)
+  mu0 : M α
+  Sig0 : M α
+
+/-- attribute reassignments / in-place edits (the new value of the attribute), and `query`: any of
+    `moment_sequence`, `stationary_distributions`, `geometric_sums`, `impulse_response`, `simulate`,
+    `replicate`, whose answers are the functions above applied to the current attributes -/
+inductive LOp (α : Type) where
+  | setA (X : M α)
+  | setC (X : M α)
+  | setG (X : M α)
+  | setH (X : Option (M α))
+  | setMu0 (X : M α)
+  | setSig0 (X : M α)
+  | query
+
+def lssStep (o : LObj α) : LOp α → LObj α
+  | .setA X => { o with A := X }
+  | .setC X => { o with C := X }
+  | .setG X => { o with G := X }
+  | .setH X => { o with H := X }
+  | .setMu0 X => { o with mu0 := X }
+  | .setSig0 X => { o with Sig0 := X }
+  | .query => o
+
+def lssRun (o : LObj α) (ops : List (LOp α)) : LObj α := ops.foldl lssStep o
+
+/-- the moment tuples an instance yields -/
+def LObj.moments (o : LObj α) (k : Nat) : List (Mom α) := momentSeq o.A o.C o.G o.H o.mu0 o.Sig0 k
+
 /-! ### impulse response, geometric sums -/
 
 /-- `(Apower, xcoef, ycoef)` after `i` passes of the loop of lines 403-406 -/
